@@ -72,5 +72,290 @@ theorem lineValue_render (name value nl : S) (hn : NameOK name) (hv : Clean valu
   have := strip_pad [' '] value [] (by decide) (by rfl) hv
   simpa using this
 
+
+/-! ### fields and their rendering -/
+
+/-- one field of a stanza: `name:rest<eol>` followed by continuation lines ` text<eol>` -/
+structure Field where
+  name : S
+  rest : S
+  eol : S := ['\n']
+  cont : List (S × S) := []
+
+def Field.first (f : Field) : S := f.name ++ ':' :: f.rest ++ f.eol
+def contLine (c : S × S) : S := ' ' :: c.1 ++ c.2
+def Field.lines (f : Field) : List S := f.first :: f.cont.map contLine
+
+def kPackage : S := "Package".toList
+def kSource : S := "Source".toList
+def kFilename : S := "Filename".toList
+def kSize : S := "Size".toList
+def hashNames : List S := ["MD5Sum".toList, "SHA1".toList, "SHA256".toList, "SHA512".toList]
+
+/-- the field is one the parser reads a value from -/
+def Field.valued (f : Field) : Prop := f.name = kPackage ∨ f.name = kSource ∨ f.name = kFilename ∨ f.name = kSize
+
+/-- well-formed field: a proper name, line ends that are line ends, and for the fields whose value is read the canonical
+    rendering `Name: value` with a value that has no blank at either end -/
+structure Field.OK (f : Field) : Prop where
+  name : NameOK f.name
+  eol : IsEol f.eol
+  value : f.valued → ∃ v, f.rest = ' ' :: v ∧ Clean v
+
+/-- **field-level semantics** of one Packages field (what the format says the field means to the mirror) -/
+def specField (s : PState) (f : Field) : Except Err PState :=
+  let v := f.rest.drop 1
+  if f.name = kPackage then pure { s with package := some v }
+  else if f.name = kSource then
+    match Cfg.splitWs v with
+    | w :: _ => pure { s with source := some w }
+    | [] => throw .indexError
+  else if f.name = kFilename then
+    let p := pathParts v
+    if lexSafe p then pure { s with filePath := some p } else pure s
+  else if f.name = kSize then
+    match parseInt v with
+    | some n => pure { s with size := n }
+    | none => throw .valueError
+  else if f.name ∈ hashNames then pure { s with hasHash := true }
+  else pure s
+
+theorem startsWith_key (f : Field) (key : S) (hk : ':' ∉ key) (hn : ':' ∉ f.name) :
+    startsWith f.first (key ++ [':']) = true ↔ f.name = key := by
+  unfold Field.first startsWith
+  rw [show f.name ++ ':' :: f.rest ++ f.eol = f.name ++ ':' :: (f.rest ++ f.eol) by simp]
+  constructor
+  · intro h
+    induction key generalizing f with
+    | nil =>
+      cases hnm : f.name with
+      | nil => rfl
+      | cons c cs =>
+        rw [hnm] at h
+        simp only [List.nil_append, List.cons_append, List.isPrefixOf, Bool.and_eq_true, beq_iff_eq] at h
+        exact absurd (by rw [hnm, ← h.1]; exact List.mem_cons_self) hn
+    | cons k ks ih =>
+      cases hnm : f.name with
+      | nil =>
+        rw [hnm] at h
+        simp only [List.nil_append, List.cons_append, List.isPrefixOf, Bool.and_eq_true, beq_iff_eq] at h
+        exact absurd (by rw [h.1]; exact List.mem_cons_self) hk
+      | cons c cs =>
+        rw [hnm] at h
+        simp only [List.cons_append, List.isPrefixOf, Bool.and_eq_true, beq_iff_eq] at h
+        have := ih { f with name := cs } (fun hm => hk (List.mem_cons_of_mem _ hm))
+          (by simp only; intro hm; exact hn (by rw [hnm]; exact List.mem_cons_of_mem _ hm)) h.2
+        simp only at this
+        rw [h.1, this]
+  · intro h
+    rw [h]
+    have : ∀ (a r : S), (a ++ [':']).isPrefixOf (a ++ ':' :: r) = true := by
+      intro a r; induction a with
+      | nil => simp [List.isPrefixOf]
+      | cons c cs ih => simp [List.isPrefixOf, ih]
+    exact this key _
+
+
+theorem first_head (f : Field) (h : NameOK f.name) : f.first.head? ≠ some '\n' := by
+  obtain ⟨c, r, hcr, hc⟩ := h.head
+  unfold Field.first
+  rw [hcr]
+  simp only [List.cons_append, List.head?_cons, ne_eq, Option.some.injEq]
+  intro e; rw [e] at hc; revert hc; decide
+
+def withPool (pool : List PoolFile) : Except Err PState → Except Err (PState × List PoolFile)
+  | .ok s => .ok (s, pool)
+  | .error e => .error e
+
+theorem sw_false (f : Field) (key : S) (hk : ':' ∉ key) (hn : ':' ∉ f.name) (hne : f.name ≠ key) :
+    startsWith f.first (key ++ [':']) = false := by
+  cases h : startsWith f.first (key ++ [':']) with
+  | false => rfl
+  | true => exact absurd ((startsWith_key f key hk hn).mp h) hne
+
+theorem hash_any (f : Field) (hn : ':' ∉ f.name) : hashPrefixes.any (startsWith f.first) = decide (f.name ∈ hashNames) := by
+  have e : hashPrefixes = hashNames.map (· ++ [':']) := by decide
+  rw [e]
+  by_cases hm : f.name ∈ hashNames
+  · simp only [hm, decide_true, List.any_map, List.any_eq_true, Function.comp]
+    exact ⟨f.name, hm, (startsWith_key f f.name hn hn).mpr rfl⟩
+  · simp only [hm, decide_false, List.any_map, List.any_eq_false, Function.comp]
+    intro k hk hsw
+    have hkc : ':' ∉ k := by
+      simp only [hashNames, List.mem_cons, List.not_mem_nil, or_false] at hk
+      rcases hk with rfl | rfl | rfl | rfl <;> decide
+    exact hm (by rw [(startsWith_key f k hkc hn).mp hsw]; exact hk)
+
+/-- **one rendered field line is read as the field means** -/
+theorem packagesLine_first (flt : Filter) (ign : List Path) (s : PState) (pool : List PoolFile) (f : Field) (hf : f.OK) :
+    packagesLine flt ign (s, pool) f.first = withPool pool (specField s f) := by
+  have hn := hf.name.nocolon
+  have hhead := first_head f hf.name
+  have kp : "Package:".toList = kPackage ++ [':'] := by decide
+  have ks : "Source:".toList = kSource ++ [':'] := by decide
+  have kf : "Filename:".toList = kFilename ++ [':'] := by decide
+  have kz : "Size:".toList = kSize ++ [':'] := by decide
+  have cp : ':' ∉ kPackage := by decide
+  have cs : ':' ∉ kSource := by decide
+  have cf : ':' ∉ kFilename := by decide
+  have cz : ':' ∉ kSize := by decide
+  have n1 : kSource ≠ kPackage := by decide
+  have n2 : kFilename ≠ kPackage := by decide
+  have n3 : kFilename ≠ kSource := by decide
+  have n4 : kSize ≠ kPackage := by decide
+  have n5 : kSize ≠ kSource := by decide
+  have n6 : kSize ≠ kFilename := by decide
+  have hval : f.valued → lineValue f.first = some (f.rest.drop 1) := by
+    intro hv
+    obtain ⟨v, hr, hc⟩ := hf.value hv
+    unfold Field.first
+    rw [hr]
+    simp only [List.drop_succ_cons, List.drop_zero]
+    have := lineValue_render f.name v f.eol hf.name hc hf.eol
+    simpa [List.append_assoc] using this
+  unfold packagesLine specField
+  simp only [hhead, ne_eq, not_false_eq_true, if_true, kp, ks, kf, kz]
+  by_cases h1 : f.name = kPackage
+  · rw [(startsWith_key f kPackage cp hn).mpr h1, hval (Or.inl h1)]
+    simp [h1, withPool, pure, Except.pure]
+  · rw [sw_false f kPackage cp hn h1]
+    by_cases h2 : f.name = kSource
+    · rw [(startsWith_key f kSource cs hn).mpr h2, hval (Or.inr (Or.inl h2))]
+      simp only [h2, n1, if_false, if_true, Bool.false_eq_true]
+      cases Cfg.splitWs (f.rest.drop 1) <;> simp [withPool, pure, Except.pure, throw, throwThe, MonadExceptOf.throw]
+    · rw [sw_false f kSource cs hn h2]
+      by_cases h3 : f.name = kFilename
+      · rw [(startsWith_key f kFilename cf hn).mpr h3, hval (Or.inr (Or.inr (Or.inl h3)))]
+        simp only [h3, n2, n3, if_false, if_true, Bool.false_eq_true]
+        split <;> simp [withPool, pure, Except.pure]
+      · rw [sw_false f kFilename cf hn h3]
+        by_cases h4 : f.name = kSize
+        · rw [(startsWith_key f kSize cz hn).mpr h4, hval (Or.inr (Or.inr (Or.inr h4)))]
+          simp only [h4, n4, n5, n6, if_false, if_true, Bool.false_eq_true]
+          cases parseInt (f.rest.drop 1) <;> simp [withPool, pure, Except.pure, throw, throwThe, MonadExceptOf.throw]
+        · rw [sw_false f kSize cz hn h4, hash_any f hn]
+          simp only [h1, h2, h3, h4, if_false, Bool.false_eq_true]
+          by_cases h5 : f.name ∈ hashNames <;> simp [h5, withPool, pure, Except.pure]
+
+
+theorem sw_blank (r key : S) (c : Char) (h : key.head? = some c) (hc : c ≠ ' ') : startsWith (' ' :: r) key = false := by
+  cases key with
+  | nil => cases h
+  | cons k ks =>
+    simp only [List.head?_cons, Option.some.injEq] at h
+    subst h
+    simp only [startsWith, List.isPrefixOf, Bool.and_eq_false_iff, beq_eq_false_iff_ne, ne_eq]
+    exact Or.inl hc
+
+/-- a line that starts with a blank changes nothing -/
+theorem packagesLine_blankstart (flt : Filter) (ign : List Path) (s : PState) (pool : List PoolFile) (l : S) :
+    packagesLine flt ign (s, pool) (' ' :: l) = .ok (s, pool) := by
+  have h0 : (' ' :: l).head? ≠ some '\n' := by simp
+  have hp : startsWith (' ' :: l) "Package:".toList = false := sw_blank _ _ 'P' rfl (by decide)
+  have hs : startsWith (' ' :: l) "Source:".toList = false := sw_blank _ _ 'S' rfl (by decide)
+  have hf : startsWith (' ' :: l) "Filename:".toList = false := sw_blank _ _ 'F' rfl (by decide)
+  have hz : startsWith (' ' :: l) "Size:".toList = false := sw_blank _ _ 'S' rfl (by decide)
+  have h1 : startsWith (' ' :: l) "MD5Sum:".toList = false := sw_blank _ _ 'M' rfl (by decide)
+  have h2 : startsWith (' ' :: l) "SHA1:".toList = false := sw_blank _ _ 'S' rfl (by decide)
+  have h3 : startsWith (' ' :: l) "SHA256:".toList = false := sw_blank _ _ 'S' rfl (by decide)
+  have h4 : startsWith (' ' :: l) "SHA512:".toList = false := sw_blank _ _ 'S' rfl (by decide)
+  have hh : hashPrefixes.any (startsWith (' ' :: l)) = false := by
+    simp only [hashPrefixes, List.any_cons, List.any_nil, h1, h2, h3, h4, Bool.or_false]
+  unfold packagesLine
+  simp only [h0, ne_eq, not_false_eq_true, if_true, hp, hs, hf, hz, hh, Bool.false_eq_true, if_false, pure, Except.pure]
+
+theorem packagesLine_cont (flt : Filter) (ign : List Path) (s : PState) (pool : List PoolFile) (c : S × S) :
+    packagesLine flt ign (s, pool) (contLine c) = .ok (s, pool) := by
+  unfold contLine
+  rw [List.cons_append]
+  exact packagesLine_blankstart flt ign s pool _
+
+theorem foldlM_cont (flt : Filter) (ign : List Path) (cs : List (S × S)) (s : PState) (pool : List PoolFile) :
+    (cs.map contLine).foldlM (packagesLine flt ign) (s, pool) = .ok (s, pool) := by
+  induction cs with
+  | nil => rfl
+  | cons c cs ih =>
+    simp only [List.map_cons, List.foldlM_cons, packagesLine_cont, bind, Except.bind]
+    exact ih
+
+/-- field-level semantics of the fields of one stanza, read in order from state `s` -/
+def specFields (s : PState) (fs : List Field) : Except Err PState := fs.foldlM specField s
+
+theorem packages_fields (flt : Filter) (ign : List Path) (fs : List Field) (hok : ∀ f ∈ fs, f.OK) (s : PState) (pool : List PoolFile) :
+    (fs.flatMap Field.lines).foldlM (packagesLine flt ign) (s, pool) = withPool pool (specFields s fs) := by
+  induction fs generalizing s with
+  | nil => rfl
+  | cons f fs ih =>
+    have hf := hok f List.mem_cons_self
+    simp only [List.flatMap_cons, Field.lines, List.cons_append, List.foldlM_cons, List.foldlM_append, specFields]
+    rw [packagesLine_first flt ign s pool f hf]
+    cases hsf : specField s f with
+    | error e => simp [withPool, bind, Except.bind]
+    | ok s' =>
+      simp only [withPool, bind, Except.bind, foldlM_cont]
+      exact ih (fun g hg => hok g (List.mem_cons_of_mem _ hg)) s'
+
+/-- what the end of a stanza does with the fields read so far: at most one pool file -/
+def flush (flt : Filter) (ign : List Path) (s : PState) (pool : List PoolFile) : List PoolFile :=
+  match s.package, s.filePath with
+  | some pkg, some fp =>
+    if pkg.isEmpty || s.size = 0 then pool
+    else if !flt.allowed (s.srcName pkg) (some pkg) then pool
+    else putPool pool { path := fp, size := s.size, ignoreErrors := shouldIgnore ign fp }
+  | _, _ => pool
+
+theorem packagesLine_blank (flt : Filter) (ign : List Path) (s : PState) (pool : List PoolFile) :
+    packagesLine flt ign (s, pool) ['\n'] = .ok ({}, flush flt ign s pool) := by
+  unfold packagesLine flush
+  simp only [List.head?_cons, ne_eq, not_true_eq_false, if_false]
+  cases s.package with
+  | none => simp [pure, Except.pure]
+  | some pkg =>
+    cases s.filePath with
+    | none => simp [pure, Except.pure]
+    | some fp =>
+      simp only
+      split
+      · simp [pure, Except.pure]
+      · split <;> simp [pure, Except.pure]
+
+theorem flush_empty (flt : Filter) (ign : List Path) (pool : List PoolFile) : flush flt ign {} pool = pool := rfl
+
+theorem foldlM_blanks (flt : Filter) (ign : List Path) (k : Nat) (pool : List PoolFile) :
+    (List.replicate k ['\n']).foldlM (packagesLine flt ign) ({}, pool) = .ok ({}, pool) := by
+  induction k with
+  | zero => rfl
+  | succ k ih =>
+    simp only [List.replicate_succ, List.foldlM_cons, packagesLine_blank, flush_empty, bind, Except.bind]
+    exact ih
+
+/-- a stanza: its fields, followed by `blanks` empty lines -/
+structure Stanza where
+  fields : List Field
+  blanks : Nat
+
+def Stanza.lines (st : Stanza) : List S := st.fields.flatMap Field.lines ++ List.replicate st.blanks ['\n']
+
+/-- **stanza-level specification of a Packages index**: each stanza is read on its own (from the empty state) and contributes
+    at most one pool file -/
+def specIndex (flt : Filter) (ign : List Path) (sts : List Stanza) (pool : List PoolFile) : Except Err (List PoolFile) :=
+  sts.foldlM (fun pool st => do let s ← specFields {} st.fields; pure (flush flt ign s pool)) pool
+
+theorem packages_stanzas (flt : Filter) (ign : List Path) (sts : List Stanza) (hb : ∀ st ∈ sts, 1 ≤ st.blanks)
+    (hok : ∀ st ∈ sts, ∀ f ∈ st.fields, f.OK) (pool : List PoolFile) :
+    (sts.flatMap Stanza.lines).foldlM (packagesLine flt ign) ({}, pool) =
+      (match specIndex flt ign sts pool with | .ok p => .ok ({}, p) | .error e => .error e) := by
+  induction sts generalizing pool with
+  | nil => rfl
+  | cons st sts ih =>
+    obtain ⟨k, hk⟩ : ∃ k, st.blanks = k + 1 := ⟨st.blanks - 1, by have := hb st List.mem_cons_self; omega⟩
+    simp only [List.flatMap_cons, Stanza.lines, hk, List.replicate_succ, List.foldlM_append, List.foldlM_cons, specIndex]
+    rw [packages_fields flt ign st.fields (hok st List.mem_cons_self) {} pool]
+    cases hs : specFields {} st.fields with
+    | error e => simp [withPool, bind, Except.bind]
+    | ok s =>
+      simp only [withPool, bind, Except.bind, packagesLine_blank, foldlM_blanks, pure, Except.pure]
+      exact ih (fun x hx => hb x (List.mem_cons_of_mem _ hx)) (fun x hx => hok x (List.mem_cons_of_mem _ hx)) _
+
 end Index
 end AptMirror
